@@ -15,6 +15,7 @@ import (
 	"net"
 	"net/netip"
 	"os"
+	"sort"
 	"strconv"
 	"time"
 
@@ -47,7 +48,8 @@ type driver struct {
 	s      *packet.Session
 	conn   *vh.RecConn
 	vnow   int
-	rng    *rand.Rand
+	rng    *rand.Rand // frame contents and stutter choices: identical in fresh and shared mode
+	brng   *rand.Rand // buffer capacities and scribble patterns
 	shared bool
 	rx     []byte // shared receive buffer (shared mode)
 	last   packet.Frame
@@ -90,20 +92,30 @@ func (d *driver) patch() {
 // deliver hands a frame to Session.Parse the way the packet loop would.
 func (d *driver) deliver(b []byte) (packet.Frame, error) {
 	if d.shared {
+		d.scribbleNow() // the previous frame is dead once the loop reads the next one
 		n := copy(d.rx[:cap(d.rx)], b)
 		return d.s.Parse(d.rx[:n])
 	}
-	cp := make([]byte, len(b), len(b)+d.rng.Intn(64))
+	cp := make([]byte, len(b), len(b)+d.brng.Intn(64))
 	copy(cp, b)
 	return d.s.Parse(cp)
 }
 
 // scribble overwrites the shared receive buffer after a step is complete.
+// The buffer stays intact while a parsed frame is still waiting for its Notify (the frame's
+// views point into it: that is the documented zero-copy contract, not retained state).
 func (d *driver) scribble() {
+	if !d.shared || d.hasFr {
+		return
+	}
+	d.scribbleNow()
+}
+
+func (d *driver) scribbleNow() {
 	if !d.shared {
 		return
 	}
-	p := byte(d.rng.Intn(256))
+	p := byte(d.brng.Intn(256))
 	full := d.rx[:cap(d.rx)]
 	for i := range full {
 		full[i] = p ^ byte(i*7)
@@ -338,7 +350,13 @@ func (d *driver) step(a action) (rec map[string]interface{}) {
 	hosts, macs := vh.ProjectTables(u, d.s)
 	rec["hosts"], rec["macs"] = hosts, macs
 	rec["api"] = vh.ProjectAPI(u, d.s)
-	rec["notes"] = d.drain()
+	notes := d.drain()
+	if a.s("a") == "purge" {
+		// purge walks a Go map: the emission order of its offline notifications is unspecified
+		// (the specification treats them as a set), so log them in a canonical order
+		sort.Slice(notes, func(i, j int) bool { return notes[i].IP < notes[j].IP })
+	}
+	rec["notes"] = notes
 	rec["now"] = d.vnow
 	rec["err"] = perr
 	if a.s("a") == "purge" {
@@ -372,7 +390,7 @@ func main() {
 		fmt.Fprintln(os.Stderr, err)
 		os.Exit(2)
 	}
-	d := &driver{rng: rand.New(rand.NewSource(seed)), shared: *shared, rx: make([]byte, 0, 2048), out: bufio.NewWriterSize(of, 1<<20)}
+	d := &driver{rng: rand.New(rand.NewSource(seed)), brng: rand.New(rand.NewSource(seed + 7919)), shared: *shared, rx: make([]byte, 0, 2048), out: bufio.NewWriterSize(of, 1<<20)}
 	var fw *bufio.Writer
 	if *framesOut != "" {
 		ff, err := os.Create(*framesOut)
